@@ -39,6 +39,11 @@ let sdict_str d = "[" ^ String.concat "," (List.map (fun (k, (lo, hi)) ->
 let stream_str s = " " ^ string_of_int (List.length s.s_rows) ^ " " ^
   hex_of_bytes (List.concat_map (enc_list false (nat_of_int 4)) s.s_rows) ^ " " ^
   hex_of_bytes (enc_list false (nat_of_int 4) s.s_props)
+(* passes: "-" (none) or comma separated "c" (complete) / "a<k>" (abandoned after k items) *)
+let passes_of s = if s = "-" then [] else
+  List.map (fun t -> if t = "c" then PComplete
+                     else PAbandon (nat_of_int (int_of_string (String.sub t 1 (String.length t - 1)))))
+    (String.split_on_char ',' s)
 let handle op args = match op, args with
   | "ndig", [n] -> "ok " ^ string_of_z (ndigits (z_of_string n))
   | "decstr", [n] -> "ok " ^ hex_of_bytes (dec_str (z_of_string n))
@@ -90,16 +95,20 @@ let handle op args = match op, args with
        " n=" ^ string_of_int (List.length sl) ^ String.concat "" (List.map stream_str sl)
      | Err e -> "err " ^ string_of_err e)
   | "wfoffs", [] -> "ok " ^ string_of_bool (wf_offs offs)
-  | "tcksess", [b; lz; it; pos; h] ->
+  | "tcksess", [b; lz; ps; pos; h] ->
     let f = { fpos = z_of_string pos; fbytes = bytes_of_hex h } in
-    (match tck_session (z_of_string b) (bool_of_string lz) (nat_of_int (int_of_string it)) f with
-     | Ok (rs, f') -> "ok pos=" ^ string_of_z f'.fpos ^ " same=" ^ string_of_bool (f'.fbytes = f.fbytes) ^
+    let lazy_ = bool_of_string lz in
+    (match tck_session (z_of_string b) lazy_ (passes_of ps) f with
+     | Ok (rs, f') -> let rs = if lazy_ then List.tl rs else rs in
+                      "ok pos=" ^ string_of_z f'.fpos ^ " same=" ^ string_of_bool (f'.fbytes = f.fbytes) ^
                       " passes=" ^ String.concat "|" (List.map streams_str rs)
      | Err e -> "err " ^ string_of_err e)
-  | "trksess", [lz; it; pos; h] ->
+  | "trksess", [lz; ps; pos; h] ->
     let f = { fpos = z_of_string pos; fbytes = bytes_of_hex h } in
-    (match trk_session offs (bool_of_string lz) (nat_of_int (int_of_string it)) f with
-     | Ok (rs, f') -> "ok pos=" ^ string_of_z f'.fpos ^ " same=" ^ string_of_bool (f'.fbytes = f.fbytes) ^
+    let lazy_ = bool_of_string lz in
+    (match trk_session offs lazy_ (passes_of ps) f with
+     | Ok (rs, f') -> let rs = if lazy_ then List.tl rs else rs in
+                      "ok pos=" ^ string_of_z f'.fpos ^ " same=" ^ string_of_bool (f'.fbytes = f.fbytes) ^
                       " passes=" ^ String.concat "|" (List.map (fun sl -> string_of_int (List.length sl)) rs)
      | Err e -> "err " ^ string_of_err e)
   | "aff", v0 :: v1 :: v2 :: d0 :: d1 :: d2 :: ord :: oa :: r ->
